@@ -58,30 +58,45 @@ def renaming(rng, identity):
 COMMENT_TEXT = ["note", "x = y", "## more", "key: value", "", "a=b # c"]
 
 
+def comment_text(rng, cc, filt):
+    """text of a comment; with a filter string it often contains the filter (a comment must not make a line pass)"""
+    text = rng.choice(COMMENT_TEXT).replace("#", cc)
+    if filt and rng.random() < 0.6:
+        text = rng.choice(["see %s above", "%s", "old: %s = 1", "x%sx"]) % filt
+    return text
+
+
 def run_kv(inp, rng, stats, ren):
     sep, cc = S(inp["sep"]), S(inp["cc"])
     doc = dict(lines=[dict(t=l["t"], k=ren(l["k"]), v=ren(l["v"]), c=bool(l["c"])) for l in inp["lines"]],
-               sep=inp["sep"], cc=inp["cc"], part=bool(inp["part"]))
+               sep=inp["sep"], cc=inp["cc"], part=bool(inp["part"]), filt=ren(inp.get("filt", [])))
+    filt = S(doc["filt"])
     lines = []
     for l in doc["lines"]:
         tail = ""
         if l["c"]:
-            tail = sp(rng) + cc + sp(rng, 0, 1) + rng.choice(COMMENT_TEXT).replace("#", cc)
+            tail = sp(rng) + cc + sp(rng, 0, 1) + comment_text(rng, cc, filt)
         if l["t"] == "pair":
             text = sp(rng, 0, 3) + S(l["k"]) + sp(rng) + sep + sp(rng) + S(l["v"]) + tail + sp(rng)
         elif l["t"] == "bare":
             text = sp(rng, 0, 3) + S(l["k"]) + tail + sp(rng)
         elif l["t"] == "comment":
-            text = sp(rng, 0, 3) + cc + sp(rng, 0, 1) + rng.choice(COMMENT_TEXT).replace("#", cc)
+            text = sp(rng, 0, 3) + cc + sp(rng, 0, 1) + comment_text(rng, cc, filt)
         else:
             text = rng.choice(["", " ", "   ", "\t"])
         lines.append(text)
     ordered = rng.random() < 0.5
     kwargs = dict(use_partition=doc["part"], ordered=ordered)
+    if not doc["part"] and rng.random() < 0.3:
+        del kwargs["use_partition"]
+    if not ordered and rng.random() < 0.3:
+        del kwargs["ordered"]
     if sep != "=" or rng.random() < 0.5:
         kwargs["split_on"] = sep
     if cc != "#" or rng.random() < 0.5:
-        kwargs["comment_char"] = cc
+        kwargs["comment_char"] = cc or None
+    if filt:
+        kwargs["filter_string"] = filt
     evs = []
     exc, res = "", []
     try:
@@ -89,13 +104,16 @@ def run_kv(inp, rng, stats, ren):
     except Exception as e:      # noqa
         exc = type(e).__name__
     evs.append(dict(ev="kv", doc=doc, ordered=ordered, res=res, exc=exc, text=lines[:8]))
-    exc, res = "", []
-    try:
-        res = [C(x) for x in get_active_lines(list(lines), comment_char=cc)]
-    except Exception as e:      # noqa
-        exc = type(e).__name__
-    evs.append(dict(ev="active", lines=[C(x) for x in lines], cc=inp["cc"], res=res, exc=exc))
+    if cc:
+        exc, res = "", []
+        try:
+            res = [C(x) for x in get_active_lines(list(lines), comment_char=cc)]
+        except Exception as e:      # noqa
+            exc = type(e).__name__
+        evs.append(dict(ev="active", lines=[C(x) for x in lines], cc=inp["cc"], res=res, exc=exc))
     stats["kv"] = stats.get("kv", 0) + 1
+    if filt:
+        stats["kv_filter"] = stats.get("kv_filter", 0) + 1
     return evs
 
 
@@ -119,6 +137,16 @@ def rows_of(table):
     return [pairs_of(r) for r in table]
 
 
+def blank_variants(lines, rng):
+    """lines of blanks only: as '', 1-4 blanks or a tab (chosen per line)"""
+    out = []
+    for l in lines:
+        if not S(l).strip():
+            l = C(rng.choice(["", " ", "  ", "   ", "    ", "\t", S(l)]))
+        out.append(l)
+    return out
+
+
 def edge_lines(tab, ren, rng):
     junk = [S(ren(j)) for j in tab["junk"]]
     foot = [S(ren(f)) for f in tab["foot"]]
@@ -128,7 +156,8 @@ def edge_lines(tab, ren, rng):
 def run_fixed(inp, rng, stats, ren):
     tab = dict(cols=[dict(name=ren(c["name"]), w=c["w"]) for c in inp["cols"]],
                rows=[[ren(c) for c in r] for r in inp["rows"]], margin=inp["margin"], hi=bool(inp["hi"]),
-               junk=[ren(j) for j in inp["junk"]], ti=inp["ti"], foot=[ren(f) for f in inp["foot"]])
+               junk=blank_variants([ren(j) for j in inp["junk"]], rng), ti=inp["ti"],
+               foot=blank_variants([ren(f) for f in inp["foot"]], rng))
     n = len(tab["cols"])
     mg = " " * tab["margin"]
     header = mg + "".join(S(c["name"]).ljust(c["w"]) for c in tab["cols"][:-1]) + S(tab["cols"][-1]["name"]) + sp(rng, 0, 3)
@@ -166,7 +195,8 @@ def run_delim(inp, rng, stats, ren):
     if delim and not inp.get("concrete"):
         delim = rng.choice([",", "|", ";", ":"])
     tab = dict(delim=C(delim), names=[ren(x) for x in inp["names"]], rows=[[ren(c) for c in r] for r in inp["rows"]],
-               hi=bool(inp["hi"]), junk=[ren(j) for j in inp["junk"]], ti=inp["ti"], foot=[ren(f) for f in inp["foot"]])
+               hi=bool(inp["hi"]), junk=blank_variants([ren(j) for j in inp["junk"]], rng), ti=inp["ti"],
+               foot=blank_variants([ren(f) for f in inp["foot"]], rng))
 
     def join(cells):
         if not delim:
@@ -312,22 +342,29 @@ CELLS = ["", "1", "ok", "eth0", "a b", "9c1", "--", "n/a", "x y z", "12.5G", "up
 
 def rand_kv(rng):
     sep = rng.choice(["=", "=", ":", "=>"])
-    cc = rng.choice(["#", "#", ";", "//"])
+    cc = rng.choice(["#", "#", ";", "//", ""])          # "" = comment_char None: no comments, no blank lines
     lines = []
     for _ in range(rng.randrange(0, 11)):
         r = rng.random()
-        if r < 0.6:
+        if r < 0.6 or (not cc and r < 0.85):
             v = rng.choice(VALS)
             if rng.random() < 0.3:
                 v = v + sep + rng.choice(VALS)
-            lines.append(dict(t="pair", k=C(rng.choice(KEYS)), v=C(v.strip()), c=rng.random() < 0.3))
-        elif r < 0.7:
-            lines.append(dict(t="bare", k=C(rng.choice(KEYS)), v=[], c=rng.random() < 0.3))
+            lines.append(dict(t="pair", k=C(rng.choice(KEYS)), v=C(v.strip()), c=bool(cc) and rng.random() < 0.4))
+        elif r < 0.7 or not cc:
+            lines.append(dict(t="bare", k=C(rng.choice(KEYS)), v=[], c=bool(cc) and rng.random() < 0.3))
         elif r < 0.85:
             lines.append(dict(t="comment", k=[], v=[], c=False))
         else:
             lines.append(dict(t="blank", k=[], v=[], c=False))
-    return dict(lines=lines, sep=C(sep), cc=C(cc), part=rng.random() < 0.5)
+    filt = ""
+    if rng.random() < 0.5:
+        # part of a key or of a value that occurs in the document, or an unrelated word
+        words = [S(l["k"]) for l in lines if l["k"]] + [S(l["v"]) for l in lines if l["v"]] + ["size", "zzz"]
+        w = rng.choice(words).split()[0]
+        a = rng.randrange(0, len(w))
+        filt = w[a:a + rng.randrange(1, 5)] if rng.random() < 0.5 else w
+    return dict(lines=lines, sep=C(sep), cc=C(cc), part=rng.random() < 0.5, filt=C(filt))
 
 
 def rand_active(rng):
@@ -340,8 +377,9 @@ def rand_active(rng):
 def rand_edges(rng, first):
     hi = rng.random() < 0.4
     ti = rng.choice(["", "", "--", "Total:"])
-    junk = [C(rng.choice(["# generated", "", "WARNING: stale cache", "   note"])) for _ in range(rng.randrange(0, 3))] if hi else []
-    foot = [C(rng.choice([ti + " 3 rows", "", ti, "  " + ti + " end"])) for _ in range(rng.randrange(0, 3))] if ti else []
+    junk = [C(rng.choice(["# generated", "", "WARNING: stale cache", "   note", "  ", "\t"]))
+            for _ in range(rng.randrange(0, 3))] if hi else []
+    foot = [C(rng.choice([ti + " 3 rows", "", ti, "  " + ti + " end", "   ", " "])) for _ in range(rng.randrange(0, 4))] if ti else []
     return dict(hi=hi, junk=junk, ti=C(ti), foot=foot)
 
 
